@@ -6,6 +6,7 @@ Campaigns
            Differential oracle on every call; "no re-execution on an exact repeat" on the cached twin's call log.
   map      one MapProgram mapped with and without caching over inputs with repeated element values, twice in a row,
            sequentially / thread pool / process pool (shared cache).
+  race     eviction by / a half-written file of "another worker", injected at the cache's membership test.
 
 Hazards (bucketing only -- the pass/fail decision is always "cached == uncached")
   A value mismatch is attributed to the first *hazard* (see _HAZARDS) that (1) the history structurally contains for a
@@ -20,7 +21,6 @@ from __future__ import annotations
 import copy
 import gc
 import multiprocessing
-import pickle
 import re
 from concurrent.futures import ProcessPoolExecutor, ThreadPoolExecutor
 
@@ -49,12 +49,17 @@ RULE = (
     "cache=True function that ran in the earlier identical call runs again (ample capacity only). A mutation must "
     "succeed or fail on both twins alike. Generator flags construct around each confirmed deviation. "
     "map: MapPrograms (as C01) with cache=True on a drawn subset, cache_type simple/lru/hybrid/disk, root arrays whose "
-    "elements repeat (index mod 1-2), mapped twice into one run folder, sequentially (mostly), with a thread pool or a "
-    "forked process pool and a Manager-shared cache; every output of both runs equals the uncached run; sequentially, no "
-    "cache=True function is executed twice with equal arguments over both runs. "
+    "elements repeat (index mod 1-2), mapped twice into one run folder, sequentially (mostly; capacity rarely 1-2), with "
+    "a thread pool or a forked process pool and a Manager-shared, never-evicting LRU/hybrid cache; every output of both "
+    "runs equals the uncached run; sequentially, no cache=True function is executed twice with equal arguments over both "
+    "runs. race: the two timing-dependent interleavings of a shared cache, injected deterministically at the cache's "
+    "membership test through the public API (evict: another worker stores an entry in a full LRUCache right after the "
+    "test said True; torn: another worker has just opened the DiskCache file of the same key for writing), under a "
+    "sequential map run twice (every function cached) and under two rounds of root-only pipeline calls of every output; "
+    "oracle: equal to the uncached run / call. "
     "Non-trivial (history) = some output called >= 2 times with a cached function on its path and an "
     "intermediate-supplying call or a mutation in between (ends included); (map) = >= 1 cached MapSpec function and a "
-    "C01-non-trivial program; distinct by sha1 of the case."
+    "C01-non-trivial program; (race) = the intruder acted at least once; distinct by sha1 of the case."
 )
 ASSUMPTIONS = [
     "values are tracer strings / tuples / dicts of strings compared with ==; for full_output the whole dict is compared",
@@ -64,8 +69,12 @@ ASSUMPTIONS = [
     "argument combinations that list a name the reference evaluator never reads (C02's unused-sibling defect) are not drawn",
     "update_defaults names a root that is a non-bound parameter of some function; update_bound never names a parameter "
     "that has a PipeFunc-level default (pipefunc documents both as errors)",
-    "process pools get a Manager-shared cache (documented requirement); thread pools get simple / disk / shared caches "
-    "(the non-shared LRU and hybrid caches take no lock)",
+    "process pools get a Manager-shared cache (documented requirement); thread pools a Manager-shared or a SimpleCache "
+    "(the non-shared LRU and hybrid caches take no lock); really parallel runs use only configurations whose outcome "
+    "does not depend on timing (no eviction, no DiskCache) -- the timing-dependent interleavings are explored by the "
+    "deterministic race campaign instead",
+    "race: 'another worker' acts only through public cache methods (put) or, for DiskCache, by creating the empty file "
+    "that put() itself creates first; it acts only at membership tests, per a drawn plan",
     "map, parallel: oracle 2 is not applied (two workers may miss the same key at the same time)",
     "the hazard classification only chooses the bucket name of a mismatch, never whether it is a failure",
 ]
@@ -319,7 +328,7 @@ class _Twins:
         self.stored: set[str] = set()  # cached functions that may own an entry
         self.seen: dict = {}  # (out, kwargs) of root-only calls in the current mutation-free window -> executed cached fns
         self.last_call = None  # (out, kw recipe) of the previous call op
-        self.calls_of: dict = {}  # out -> list of (op index, supplied-intermediates?, cached function on path?)
+        self.calls_of: dict = {}  # out -> list of (op index, cached function on path?)
         self.events: list[int] = []  # op indices of mutations and intermediate-supplying calls
         self.labels: set[str] = set()
         self.units = 0
@@ -697,12 +706,15 @@ def map_cases(draw):
     if ex == "seq":
         cache_type = draw(st.sampled_from(["simple", "lru", "hybrid", "disk"]))
         shared = False
-    elif ex == "thread":
-        cache_type = draw(st.sampled_from(["simple", "disk", "lru", "hybrid"]))
-        shared = cache_type != "simple"
+        tiny = cache_type != "simple" and draw(st.integers(0, 11)) == 0
     else:
-        cache_type = draw(st.sampled_from(["lru", "hybrid", "disk"]))
-        shared = True
+        # real concurrency only in configurations whose outcome does not depend on timing: a Manager-shared cache that
+        # never evicts (threads: also the GIL-atomic SimpleCache).  The timing-dependent interleavings (eviction between
+        # the membership test and the read; a DiskCache file read while it is being written) are the deterministic
+        # subject of the "race" campaign.
+        cache_type = draw(st.sampled_from(["lru", "hybrid"] + (["simple"] if ex == "thread" else [])))
+        shared = cache_type != "simple"
+        tiny = False
     return {
         "prog": prog,
         "cached": cached,
@@ -710,7 +722,7 @@ def map_cases(draw):
         "shared": shared,
         "executor": ex,
         "mods": [draw(st.integers(1, 2)) for _ in range(3)],
-        "tiny": cache_type != "simple" and draw(st.integers(0, 11)) == 0,
+        "tiny": tiny,
     }
 
 
@@ -788,11 +800,7 @@ def body_map(data) -> Outcome:
             try:
                 res = pipe_c.map(inputs, **kw)
             except Exception as e:
-                if ex_kind != "seq" and ct == "disk" and isinstance(e, (EOFError, pickle.UnpicklingError, FileNotFoundError)):
-                    # two workers with equal arguments: one reads the file the other is still writing / evicting
-                    out.fail("map-parallel-diskcache-torn-read", f"run {run}: {exc_detail(e)}")
-                else:
-                    out.fail(exc_bucket(e, f"map-cached-raised-run{run}"), exc_detail(e))
+                out.fail(exc_bucket(e, f"map-cached-raised-run{run}"), exc_detail(e))
                 break
             finally:
                 while executors:
@@ -839,14 +847,158 @@ def body_map(data) -> Outcome:
 
 
 # ------------------------------------------------------------------------------------------------
+# race campaign: what another worker may do to a shared cache between two cache operations of this worker,
+# injected deterministically at the cache API
+
+
+def _intruded(base_cls):
+    """A cache class whose membership test is a *scheduling point*: when the plan says so, "another worker" acts
+    right there, through the public API only --
+      evict: it stores an entry of its own after the test said True (a full cache then evicts the tested key),
+      torn:  it has just entered put() for the same key (DiskCache: the file exists, nothing is written yet)."""
+
+    class Intruded(base_cls):
+        _plan = [True]
+        _mode = "evict"
+        _n = 0
+        acted = 0
+
+        def __contains__(self, key):
+            i = self._n
+            self._n += 1
+            act = bool(self._plan[i % len(self._plan)])
+            if act and self._mode == "torn" and not base_cls.__contains__(self, key):
+                self._get_file_path(key).open("wb").close()
+                self.acted += 1
+            present = base_cls.__contains__(self, key)
+            if act and present and self._mode == "evict":
+                base_cls.put(self, ("<another worker>", i), "x")
+                self.acted += 1
+            return present
+
+    Intruded.__name__ = "Intruded" + base_cls.__name__
+    return Intruded
+
+
+@st.composite
+def race_cases(draw):
+    kind = draw(st.sampled_from(["map", "call"]))
+    mode = draw(st.sampled_from(["evict", "torn"]))
+    if kind == "map":
+        prog = draw(mp.map_programs(max_funcs=3, storages=("dict",)))
+        cached = [True] * len(prog["funcs"])
+    else:
+        prog = draw(dag_programs(max_funcs=4, min_funcs=1, cache=True))
+        if not any(fn["cache"] for fn in prog["funcs"]):
+            prog["funcs"][draw(st.integers(0, len(prog["funcs"]) - 1))]["cache"] = True
+        prog = _strip_shadowing(prog)
+        cached = [fn["cache"] for fn in prog["funcs"]]
+    return {
+        "kind": kind,
+        "mode": mode,
+        "prog": prog,
+        "cached": cached,
+        "plan": draw(st.lists(st.booleans(), min_size=1, max_size=6)),
+        "disk_lru": draw(st.booleans()),
+        "mods": [draw(st.integers(1, 2)) for _ in range(3)],
+    }
+
+
+def body_race(data) -> Outcome:
+    from pipefunc.cache import DiskCache, LRUCache
+
+    out = Outcome()
+    kind, mode, prog = data["kind"], data["mode"], data["prog"]
+    out.labels = [f"race:{mode}/{kind}"]
+    scratch = None
+    if mode == "evict":
+        cache = _intruded(LRUCache)(max_size=1, shared=False)
+    else:
+        scratch = boot.fresh_dir("c09race")
+        cache = _intruded(DiskCache)(scratch, with_lru_cache=bool(data["disk_lru"]), lru_shared=False)
+    cache._plan = list(data["plan"])
+    cache._mode = mode
+    bucket = {
+        ("evict", "map"): "race-evicted-between-contains-and-get:map",
+        ("evict", "call"): "race-evicted-between-contains-and-get:call",
+        ("torn", "map"): "race-diskcache-read-of-file-being-written",
+        ("torn", "call"): "race-diskcache-read-of-file-being-written",
+    }[(mode, kind)]
+    units = 0
+    folders = []
+    try:
+        if kind == "call":
+            uprog = copy.deepcopy(prog)
+            for fn in uprog["funcs"]:
+                fn["cache"] = False
+            try:
+                pu = build_pipeline(uprog, None)
+                pc = build_pipeline(prog, None, cache_type="simple")
+            except Exception:
+                out.labels.append("n/a:build-refused")
+                return out
+            pc.cache = cache
+            m = DagModel(prog)
+            for rnd in (1, 2):
+                for t in _targets(prog):
+                    kw = {r: "V0" for r in m.needed_roots(t)}
+                    try:
+                        ru = pu(t, **kw)
+                    except Exception:
+                        continue
+                    units += 1
+                    try:
+                        rc = pc(t, **dict(kw))
+                    except Exception as e:
+                        out.fail(bucket, f"round {rnd} {t!r}: cached raised {exc_detail(e)}")
+                        continue
+                    if rc != ru:
+                        out.fail(bucket, f"round {rnd} {t!r}: cached {rc!r} uncached {ru!r}")
+        else:
+            inputs = _map_inputs(prog, data["mods"])
+            base_kw = dict(internal_shapes=mp.internal_shapes_arg(prog), storage=mp.storage_arg(prog), parallel=False)
+            folders = [boot.fresh_path("c09ru"), boot.fresh_path("c09rc")]
+            try:
+                ref = _canon_outputs(prog, mp.build_pipeline(prog).map(inputs, run_folder=folders[0], **base_kw))
+                names = [fn["name"] for fn, c in zip(prog["funcs"], data["cached"]) if c]
+                pipe_c = mp.build_pipeline(prog, pf_extra={f: {"cache": True} for f in names}, cache_type="simple")
+            except Exception:
+                out.labels.append("n/a:uncached-raised")
+                return out
+            pipe_c.cache = cache
+            for run in (1, 2):
+                units += 1
+                try:
+                    got = _canon_outputs(prog, pipe_c.map(inputs, run_folder=folders[1], **base_kw))
+                except Exception as e:
+                    out.fail(bucket, f"run {run}: cached raised {exc_detail(e)}")
+                    continue
+                for o in ref:
+                    if got[o] != ref[o]:
+                        out.fail(bucket, f"run {run} {o}: cached {str(got[o][0])[:200]} uncached {str(ref[o][0])[:200]}")
+        out.nontrivial = cache.acted > 0
+        if cache.acted:
+            out.labels.append("race:intruder-acted")
+        out.units = max(1, units)
+    finally:
+        for f in folders:
+            boot.rm(f)
+        if scratch:
+            boot.rm(scratch)
+    return out
+
+
+# ------------------------------------------------------------------------------------------------
 
 
 def campaigns(tier):
     return [
-        Campaign("history", body_history, histories(), quick=12000, thorough=160000,
+        Campaign("history", body_history, histories(), quick=10000, thorough=160000,
                  describe="twin pipelines (cached / uncached) x histories of calls and mutations"),  # fmt: skip
-        Campaign("map", body_map, map_cases(), quick=1400, thorough=16000,
+        Campaign("map", body_map, map_cases(), quick=1000, thorough=16000,
                  describe="MapPrograms mapped twice with a cache vs. without, repeated input values"),  # fmt: skip
+        Campaign("race", body_race, race_cases(), quick=400, thorough=6000,
+                 describe="another worker's eviction / half-written file injected at the cache's membership test"),  # fmt: skip
     ]
 
 
